@@ -129,13 +129,13 @@ def Rdh0Validator.sanity_check (self_ : Rdh0Validator) (rdh0 : Rdh0) : ((Rs.Res 
 def RdhCru.rdh0 (self_ : RdhCru) : Rdh0 :=
   self_.f_rdh0
 
+def Rdh1.bc (self_ : Rdh1) : Nat :=
+  (((self_.f_bc_reserved0.f_0 &&& (Rs.mask 0 12))) % 2^16)
+
 def Rdh1Validator.BC_MAX : Nat := 3563
 
 def Rdh1.reserved0 (self_ : Rdh1) : Nat :=
   (self_.f_bc_reserved0.f_0 >>> 12)
-
-def Rdh1.bc (self_ : Rdh1) : Nat :=
-  (((self_.f_bc_reserved0.f_0 &&& (Rs.mask 0 12))) % 2^16)
 
 def Rdh1Validator.sanity_check (self_ : Rdh1Validator) (rdh1 : Rdh1) : (Rs.Res Unit) :=
   (let err_str := Rs.Str.empty; (let err_str_2 := (if ((Rdh1.reserved0 (rdh1)) != (Rdh1.reserved0 (self_.f_valid_rdh1))) then (let err_str_2 := (err_str.app (Rs.Str.lit true [])); err_str_2) else err_str); (let err_str := (if (decide ((Rdh1.bc (rdh1)) > Rdh1Validator.BC_MAX)) then (let err_str := (err_str_2.app (Rs.Str.lit true [])); err_str) else err_str_2); (if (!(!err_str.nonEmpty)) then (Rs.Res.err ((Rs.Str.lit true []).app err_str)) else (Rs.Res.ok ())))))
@@ -239,10 +239,14 @@ def RdhCruRunningChecker.check (self_ : RdhCruRunningChecker) (rdh : RdhCru) : (
 def RdhCruRunningChecker.new  : RdhCruRunningChecker :=
   { f_expect_pages_counter := 0, f_first_rdh_cru := none, f_second_rdh_cru := none, f_expect_pages_counter_increment := 1, f_last_rdh_cru := none : RdhCruRunningChecker }
 
+def Rdh2.is_pht_trigger (self_ : Rdh2) : Bool :=
+  (((self_.f_trigger_type >>> 4) &&& (Rs.mask 0 1)) == 1)
+
 /-! kernel-checked: every literal mask was split into contiguous runs correctly -/
 example : (Rs.mask 0 12) = 4095 := by decide
 example : (Rs.mask 0 3) = 7 := by decide
 example : (Rs.mask 0 6) = 63 := by decide
+example : (Rs.mask 0 1) = 1 := by decide
 example : (Rs.mask 15 12) = 134184960 := by decide
 example : (Rs.mask 12 12) = 16773120 := by decide
 example : (Rs.mask 12 4) = 61440 := by decide
